@@ -8,6 +8,8 @@ for rf in sorted(glob.glob(RES + "/*.json")):
     except Exception:
         continue
     prop, m = r["prop"], os.path.basename(r["dir"])
+    if "/seed4_out/" in r["dir"]:
+        m = "m%d" % (int(m[1:]) + 6)
     if "/seed3_out/" in r["dir"]:
         m = "m%d" % (int(m[1:]) + 4)
     if "/seed2_out/" in r["dir"]:            # second round: m1, m2 -> m3, m4
